@@ -15,6 +15,9 @@ EXTENDS Xfr, Json, IOUtils
 Rec == ndJsonDeserialize(IOEnv.TRACE)
 TU == 1..32                       \* record universe of the recorder
 
+\* open deviations are handed over by the driver as environment variables
+EnvDev == {d \in DevNames : d \in DOMAIN IOEnv}
+
 VARIABLES l, hist
 tvars == <<l, hist>>
 
@@ -79,7 +82,36 @@ T_Xfer ==
               /\ e.rsteps[i].ir = "ok" /\ e.rsteps[i].it = "ok" /\ e.rsteps[i].ap = "ok"
   /\ UNCHANGED hist
 
-TNext == T_New \/ T_Commit \/ T_Hist \/ T_Xfer
+\* the sender's stream with its closing SOA replaced by one of the same serial
+\* and other RDATA: never "finished", the real receiver does what the
+\* specification's receiver does, nothing but described versions is published
+T_XferBad ==
+  /\ IsEv("xfer_bad")
+  /\ LET e == Rec[l]
+         ms == [i \in 1..Len(e.msgs) |-> [id |-> e.msgs[i].id, qr |-> e.msgs[i].qr, op |-> e.msgs[i].op,
+                                          rc |-> e.msgs[i].rc, tc |-> e.msgs[i].tc, qd |-> e.msgs[i].qd,
+                                          qdc |-> e.msgs[i].qdc, an |-> e.msgs[i].an,
+                                          anc |-> e.msgs[i].anc, nsc |-> e.msgs[i].nsc]]
+         c0 == SeqSet(e.rold.recs)
+         old == VersionView(e.rold.soa, c0)
+         den == Denotes(ms, e.req, e.rold.soa, c0)
+         run == RunStream(ContentOf(TU, e.rold.soa, c0), e.req, ms)
+         lastm == ms[Len(ms)]
+     IN /\ lastm.an[Len(lastm.an)] >= 200              \* the corruption is what was meant
+        /\ ~den.rd.complete
+        /\ ~e.rpanic
+        /\ ~Finished(run)
+        /\ \A i \in 1..Len(e.rsteps) : \A j \in 1..Len(e.rsteps[i].ups) : e.rsteps[i].ups[j][1] # "Fin"
+        /\ Range(AllPubs(run)) \cup {run.final} \subseteq {old} \cup Range(den.rd.versions)
+        /\ MV(e.rfinal) = run.final
+        /\ Len(e.rsteps) = Len(run.steps)
+        /\ \A i \in 1..Len(run.steps) :
+              /\ MV(e.rsteps[i].pub) = run.steps[i].pub
+              /\ e.rsteps[i].ups = run.steps[i].ups
+              /\ e.rsteps[i].ir = run.steps[i].ir /\ e.rsteps[i].it = run.steps[i].it
+  /\ UNCHANGED hist
+
+TNext == T_New \/ T_Commit \/ T_Hist \/ T_Xfer \/ T_XferBad
 TSpec == TInit /\ [][TNext]_tvars
 
 Accepted ==
